@@ -337,14 +337,36 @@ def check_user_callables(ctx, repo):
         fi = ci.methods.get('pack_regexp')
         if fi is None:
             continue
-        for c in ast.walk(fi.node):
-            if isinstance(c, ast.Call) and isinstance(c.func, ast.Attribute) and isinstance(c.func.value, ast.Name) and c.func.value.id == 'self' \
-                    and repo.method(ci, c.func.attr) is None and c.func.attr in repo.instance_attrs(ci):
+        # a method of the class parked in an attribute by _compile (self.X = self._method) is not the
+        # user's callable: the methods it may hold are scanned instead
+        todo, scanned = [fi], set()
+        sites = []
+        while todo:
+            g = todo.pop()
+            if g.id in scanned:
+                continue
+            scanned.add(g.id)
+            for c in ast.walk(g.node):
+                if isinstance(c, ast.Call) and isinstance(c.func, ast.Attribute) and isinstance(c.func.value, ast.Name) and c.func.value.id == 'self' \
+                        and repo.method(ci, c.func.attr) is None and c.func.attr in repo.instance_attrs(ci):
+                    if c.func.attr in repo.parked_method_attrs(ci):
+                        held = set()
+                        for m_ in ci.methods.values():
+                            for a_ in ast.walk(m_.node):
+                                if isinstance(a_, ast.Assign) and any(isinstance(t_, ast.Attribute) and t_.attr == c.func.attr and canon(t_.value) == 'self' for t_ in a_.targets):
+                                    for x_ in ast.walk(a_.value):
+                                        if isinstance(x_, ast.Attribute) and canon(x_.value) == 'self' and repo.method(ci, x_.attr) is not None:
+                                            held.add(repo.method(ci, x_.attr))
+                        todo.extend(held)
+                        continue
+                    sites.append((g, c))
+        for fi_, c in sites:
+            if True:
                 n += 1
                 st = '[%s] %s' % (cname, stmt_text(c)[:100])
                 broad = False
                 parents = {}
-                for p_ in ast.walk(fi.node):
+                for p_ in ast.walk(fi_.node):
                     for ch in ast.iter_child_nodes(p_):
                         parents[id(ch)] = p_
                 cur = c
@@ -356,9 +378,9 @@ def check_user_callables(ctx, repo):
                                 broad = True
                     cur = par
                 if broad:
-                    ctx.holds(rule, fi, st, 'a user callable run on the pattern: any failure means "unknown"', c.lineno, clause='c')
+                    ctx.holds(rule, fi_, st, 'a user callable run on the pattern: any failure means "unknown"', c.lineno, clause='c')
                 else:
-                    ctx.violation(rule, fi, st, 'a callable given by the user is run on the pattern outside a try that tolerates Exception: whatever it raises there (KeyError on the missing parse context, AttributeError on a don\'t-care) makes building the expression fail', c.lineno, clause='c', witness=True)
+                    ctx.violation(rule, fi_, st, 'a callable given by the user is run on the pattern outside a try that tolerates Exception: whatever it raises there (KeyError on the missing parse context, AttributeError on a don\'t-care) makes building the expression fail', c.lineno, clause='c', witness=True)
     ctx.unit('user_callables_on_patterns', n)
 
 
